@@ -371,6 +371,15 @@ static CACHED_ENV_VARS: Lazy<HashSet<&'static OsStr>> = Lazy::new(|| {
         "CPLUS_INCLUDE_PATH",
         "OBJC_INCLUDE_PATH",
         "OBJCPLUS_INCLUDE_PATH",
+        // Everything that is part of the result key (see `CACHED_ENV_VARS` in
+        // c.rs) has to be part of this key as well: a hit here returns a
+        // result key computed earlier.
+        "MACOSX_DEPLOYMENT_TARGET",
+        "IPHONEOS_DEPLOYMENT_TARGET",
+        "TVOS_DEPLOYMENT_TARGET",
+        "WATCHOS_DEPLOYMENT_TARGET",
+        "SDKROOT",
+        "CCC_OVERRIDE_OPTIONS",
     ]
     .iter()
     .map(OsStr::new)
